@@ -29,6 +29,7 @@ def atoms_for(t: T, cx: Ctx):
 def valid_data(t: T, cx: Ctx, rng, n):
     out = []
     for _ in range(n * 3):
+        cx.budget = 3000
         try:
             out.append(t.valid(rng, cx))
         except Unspecified:
